@@ -641,6 +641,7 @@ func init() {
 		tqCampaign(c, "C06")
 		if c.Replay == "" {
 			c06Real(c, NewRng(c.Seed^0xC06A), "C06")
+			c06AgentStart(c, NewRng(c.Seed^0xC06B))
 			c06Concat(c, NewRng(c.Seed^0xC06B))
 		}
 	}
